@@ -37,6 +37,10 @@ enum Op {
     Filters,
     Block,
     ForkProof,
+    /// SendTransactionsProof for a pending fetch_transaction (add_fetched_tx)
+    TxsProof,
+    /// the REFRESH timer (finalize_check_points, proof requests)
+    Refresh,
     GetCells,
     GetTxs,
     GetCapacity,
@@ -51,12 +55,23 @@ impl Op {
     }
 }
 
-const OPS: [Op; 9] = [Op::SetAll, Op::SetPartial, Op::SetDelete, Op::Filters, Op::Block, Op::ForkProof, Op::GetCells, Op::GetTxs, Op::GetCapacity];
+const OPS: [Op; 11] = [Op::SetAll, Op::SetPartial, Op::SetDelete, Op::Filters, Op::Block, Op::ForkProof, Op::TxsProof, Op::Refresh, Op::GetCells, Op::GetTxs, Op::GetCapacity];
+
+/// the protocol handler object an operation needs exclusively (one handler runs one call at a time)
+fn handler_of(op: Op) -> Option<u8> {
+    match op {
+        Op::ForkProof | Op::TxsProof | Op::Refresh => Some(0),
+        Op::Filters => Some(1),
+        Op::Block => Some(2),
+        _ => None,
+    }
+}
 
 struct InHand {
     filters: InFlight,
     block: InFlight,
     proof: InFlight,
+    txs_proof: InFlight,
 }
 
 fn chains(env: &Env) -> (Chain, Chain) {
@@ -118,7 +133,8 @@ fn build(env: &Env, main: &Chain, fork: &Chain, old: Option<Sim>, pre: u8) -> Op
         let proof = sim.queue.remove(pos).unwrap();
         sim.queue.clear();
         sim.held.clear();
-        return Some((sim, InHand { filters: proof.clone(), block: proof.clone(), proof }));
+        let txs_proof = fetch_in_hand(&mut sim, main)?;
+        return Some((sim, InHand { filters: proof.clone(), block: proof.clone(), proof, txs_proof }));
     }
     // until block bodies are held back and the next BlockFilters answer is in flight
     let is_filters = |m: &InFlight| m.proto == Proto::Filter && scen::filter_kind(&m.data).as_deref() == Some("BlockFilters");
@@ -197,7 +213,22 @@ fn build(env: &Env, main: &Chain, fork: &Chain, old: Option<Sim>, pre: u8) -> Op
     let proof = sim.queue.remove(pos).unwrap();
     sim.queue.clear();
     sim.held.clear();
-    Some((sim, InHand { filters, block, proof }))
+    let txs_proof = fetch_in_hand(&mut sim, main)?;
+    Some((sim, InHand { filters, block, proof, txs_proof }))
+}
+
+/// The user fetches a transaction; the answer of the peer is kept in hand.
+fn fetch_in_hand(sim: &mut Sim, main: &Chain) -> Option<InFlight> {
+    use crate::service::TransactionRpc;
+    // (the cellbase of block 8: no registered script is involved, so it is not indexed)
+    let tx = main.blocks[8].transactions().get(0)?.hash();
+    let _ = sim.c().rpc_tx().fetch_transaction(tx.unpack());
+    sim.cm().tick_lc(1);
+    sim.pump_out();
+    let pos = sim.queue.iter().position(|m| m.proto == Proto::LightClient && scen::lc_kind(&m.data).as_deref() == Some("SendTransactionsProof"))?;
+    let m = sim.queue.remove(pos).unwrap();
+    sim.queue.clear();
+    Some(m)
 }
 
 fn key_of(script: &packed::Script) -> SearchKey {
@@ -284,6 +315,23 @@ fn run_schedule(env: &Env, main: &Chain, fork: &Chain, old: &mut Option<Sim>, pr
                         rt.block_on(lc.received(nc, p, data));
                     })
                 }
+                Op::TxsProof => {
+                    let lc = lc.take().expect("one handler per pair");
+                    let nc = as_nc(ctx_lc);
+                    let data = hand.txs_proof.data.clone();
+                    Box::new(move || {
+                        let rt = ckb_network::tokio::runtime::Builder::new_current_thread().build().unwrap();
+                        rt.block_on(lc.received(nc, p, data));
+                    })
+                }
+                Op::Refresh => {
+                    let lc = lc.take().expect("one handler per pair");
+                    let nc = as_nc(ctx_lc);
+                    Box::new(move || {
+                        let rt = ckb_network::tokio::runtime::Builder::new_current_thread().build().unwrap();
+                        rt.block_on(lc.notify(nc, 0));
+                    })
+                }
                 Op::SetAll | Op::SetPartial | Op::SetDelete => {
                     let rpc = &rpc[i];
                     let (list, cmd) = match op {
@@ -358,6 +406,9 @@ pub(crate) fn run(opts: &Opts, report: &mut Report) {
                     continue;
                 }
                 if pre == 1 && [a, b].iter().any(|o| matches!(o, Op::Filters | Op::Block)) {
+                    continue;
+                }
+                if handler_of(a).is_some() && handler_of(a) == handler_of(b) {
                     continue;
                 }
                 pairs.push((pre, [a, b]));
